@@ -2,9 +2,9 @@ package main
 
 import (
 	"fmt"
-	"os"
 	"go/token"
 	"go/types"
+	"os"
 	"sort"
 	"strings"
 
@@ -13,9 +13,9 @@ import (
 
 func init() {
 	register("C08", &propSpec{
-		level: "proof",
+		level:       "proof",
 		explanation: "Every panic-capable instruction (index, slice, make, non-comma-ok type assertion, explicit panic, division, stdlib calls with a length contract) in the decode cone of both codecs is an obligation discharged by a linear-arithmetic bounds prover over SSA (dominating guards, definitional facts of slices, field memory with the Buffer invariant 0<=off<=len(b), inferred callee requires/ensures, Fourier–Motzkin refutation); allocation sizes are bounded by a constant or by the length of the input; the frame limits dominate the body allocation and read; a short body read is returned as an error. All obligations discharged ⇒ no decode call can panic on bounds, allocation size, assertion or explicit panic, and its allocations are O(input).",
-		run: runC08,
+		run:         runC08,
 		trusted: []string{
 			"Go semantics of slices, copy, append and io.ReadFull (n <= len(buf); err == nil implies n == len(buf))",
 			"soundness of the prover (linear facts over SSA values; rational Fourier–Motzkin refutation)",
@@ -26,9 +26,9 @@ func init() {
 		extra: []BuildConfig{cfg386},
 	})
 	register("C20", &propSpec{
-		level: "other",
+		level:       "other",
 		explanation: "The bounds prover of C08 applied to the client's reply decoding: every index/slice/make whose operand or bound derives from a server reply (results of clientConn.sendPacket, result.data taken from a channel, recvPacket) in every Client/File method and in their background goroutines is an obligation; the axiom 'a delivered payload has at least 4 bytes' is itself proved where results are constructed (recv); every switch on the reply type has an error default; decoders only return errors.",
-		run: runC20,
+		run:         runC20,
 		assumptions: []string{"binary.Read (StatVFS) allocates nothing proportional to a length taken from the input"},
 		extra:       []BuildConfig{cfg386},
 	})
